@@ -175,7 +175,11 @@ func genAttrCase(t *rapid.T) AttrCase {
 			}
 			c.Steps = append(c.Steps, s)
 		case 4:
-			c.Steps = append(c.Steps, AttrStep{Op: "read"})
+			if rapid.Bool().Draw(t, "extra") {
+				c.Steps = append(c.Steps, AttrStep{Op: "extra"})
+			} else {
+				c.Steps = append(c.Steps, AttrStep{Op: "read"})
+			}
 		case 5, 6, 7:
 			c.Steps = append(c.Steps, AttrStep{Op: "write", Tab: rapid.IntRange(0, 1).Draw(t, "tab")})
 		default:
@@ -294,6 +298,28 @@ func runAttr(c AttrCase, o *Obs) error {
 			if err := checkAttrs(where); err != nil {
 				return err
 			}
+		case "extra":
+			// creating and dropping another table on the connection leaves attributes and
+			// the other tables alone
+			if deadlinePast() {
+				continue
+			}
+			xn := uniqName("x")
+			if err := a.Create(TableSpec{Name: xn, Columns: "k primary key", Bucket: bucket, Client: "a", Prefix: xn}); err != nil {
+				return fmt.Errorf("%s: create: %v", where, err)
+			}
+			if err := a.Drop(xn); err != nil {
+				return fmt.Errorf("%s: drop: %v", where, err)
+			}
+			if err := checkAttrs(where); err != nil {
+				return err
+			}
+			for _, tn := range tabs {
+				if _, err := a.Query("select count(*) from " + tn); err != nil {
+					return fmt.Errorf("%s: after dropping another table of the connection (deadline=%q), table %s cannot be read: %v", where, dl, tn, err)
+				}
+			}
+			o.Class("create-drop-extra-table")
 		case "set":
 			var sets []string
 			if s.DL != "-" && s.DL != "" {
